@@ -144,6 +144,80 @@ func RunXUse(out string, seed int64, n int) (*Summary, error) {
 	for _, l := range lines {
 		enc.Encode(l)
 	}
+	ol, err := orderProbes(r, n/3+4)
+	if err != nil {
+		return nil, err
+	}
+	for _, l := range ol {
+		enc.Encode(l)
+	}
 	bw.Flush()
-	return &Summary{Driver: "rt-xuse", Executed: len(lines), Lines: len(lines), Distinct: len(lines)}, nil
+	return &Summary{Driver: "rt-xuse", Executed: len(lines) + len(ol), Lines: len(lines) + len(ol), Distinct: len(lines) + len(ol)}, nil
+}
+
+// OLine is one probe of "the first rewrite route whose pattern matches, in the order the configuration resolves
+// them": two rewrite routes that both match the Host, the match of one beginning later in the Host than the
+// match of the other (a pattern anchored only at its end against a catch-all).
+type OLine struct {
+	Ev      string      `json:"ev"` // order
+	Case    int         `json:"case"`
+	First   string      `json:"first"`   // the route listed first among those that match: tail | all
+	Reached string      `json:"reached"` // the backend that received the request: tail | all | none
+	SlugOf  string      `json:"slugof"`  // the route whose provider the sign-in redirect names: tail | all | none
+	Conc    interface{} `json:"conc,omitempty"`
+}
+
+func orderProbes(r *rand.Rand, n int) ([]OLine, error) {
+	var out []OLine
+	for i := 0; i < n; i++ {
+		fa := world.NewFakeAuth("proxy-client-id", "proxy-client-secret")
+		bTail, bAll := world.NewBackend("tail"), world.NewBackend("all")
+		// the Host is <ip>.<label>.order.test; the end-anchored pattern's match starts after the address, whose
+		// text ReplaceAllString keeps in front of the substituted `to`
+		label := []string{"apps", "int", "svc-" + fmt.Sprint(r.Intn(90)+10)}[r.Intn(3)]
+		tailFrom := "\\." + label + "\\.order\\.test$"
+		tailTo := ":" + strings.Split(bTail.Addr(), ":")[1]
+		allFrom := []string{"^(.*)\\.order\\.test$", "^[0-9.]+\\.[a-z0-9-]+\\.order\\.test$", "(?i)^.+\\.ORDER\\.TEST$"}[r.Intn(3)]
+		tail := fmt.Sprintf("- service: tailsvc\n  default:\n    from: '%s'\n    to: '%s'\n    type: rewrite\n    options:\n      provider_slug: tail-idp\n      allowed_email_domains:\n        - corp.test\n", tailFrom, tailTo)
+		all := fmt.Sprintf("- service: allsvc\n  default:\n    from: '%s'\n    to: %s\n    type: rewrite\n    options:\n      provider_slug: all-idp\n      allowed_email_domains:\n        - corp.test\n", allFrom, bAll.Addr())
+		first := "tail"
+		y := tail + all
+		if r.Intn(3) == 0 {
+			first, y = "all", all+tail
+		}
+		p, err := world.NewProxy(world.ProxyOpts{UpstreamYAML: y, ProviderURL: fa.URL(), HTTPOnly: true})
+		if err != nil {
+			fa.Close()
+			bTail.Close()
+			bAll.Close()
+			return nil, fmt.Errorf("order fixture: %v\n%s", err, y)
+		}
+		host := "127.0.0.1." + label + ".order.test"
+		ln := OLine{Ev: "order", Case: 90000000 + i, First: first, Reached: "none", SlugOf: "none", Conc: map[string]interface{}{"yaml": y, "host": host}}
+		// without a session: which provider is the browser sent to?
+		st := world.Do(p.Handler, world.NewReq("GET", host, "/x", nil, nil, ""))
+		if loc := st.Header.Get("Location"); strings.Contains(loc, "/tail-idp/") {
+			ln.SlugOf = "tail"
+		} else if strings.Contains(loc, "/all-idp/") {
+			ln.SlugOf = "all"
+		}
+		// with a session every upstream would accept (bound to this Host, for the slug of the route that is due)
+		now := time.Now()
+		for _, slug := range []string{first + "-idp"} {
+			val := p.Seal(&sessions.SessionState{ProviderSlug: slug, ProviderType: "sso", AccessToken: "at-1", RefreshToken: "rt-1",
+				Email: "someone@corp.test", User: "someone", AuthorizedUpstream: host,
+				LifetimeDeadline: now.Add(3 * world.U), RefreshDeadline: now.Add(2 * world.U), ValidDeadline: now.Add(world.U / 2)})
+			world.Do(p.Handler, world.NewReq("GET", host, "/data", nil, []*http.Cookie{{Name: p.CookieName, Value: val}}, ""))
+		}
+		if len(bTail.Got()) > 0 {
+			ln.Reached = "tail"
+		} else if len(bAll.Got()) > 0 {
+			ln.Reached = "all"
+		}
+		out = append(out, ln)
+		fa.Close()
+		bTail.Close()
+		bAll.Close()
+	}
+	return out, nil
 }
